@@ -90,7 +90,7 @@ def prepare(eng, qualname, variant=None, label=None, only=None):
     return out
 
 
-def solve(preps, timeout, budget_s):
+def solve(preps, timeout, budget_s, cvc5_mode=True):
     """answer every query of every prepared function; -> {(prep index, item index, query index): result}"""
     deadline = time.time() + budget_s
     vac, slots = [], []
@@ -109,7 +109,7 @@ def solve(preps, timeout, budget_s):
             answers[k] = (r[0], r[1], r[2], r[3] + '(slice)')
     # stage 2: full queries for the rest
     s2 = [((pi, ii, qi), fu) for pi, ii, qi, sl, fu in slots if (pi, ii, qi) not in answers]
-    for (k, _), r in zip(s2, smt.solve_many([q for _, q in s2], timeout_s=timeout, deadline=deadline)):
+    for (k, _), r in zip(s2, smt.solve_many([q for _, q in s2], timeout_s=timeout, use_cvc5=cvc5_mode, deadline=deadline)):
         answers[k] = r
     # vacuity probes: satisfiability questions, short budget, single attempt, `unknown` is "not shown"
     for (k, _), r in zip(vac, smt.solve_many([q for _, q in vac], timeout_s=3, use_cvc5='single', deadline=time.time() + 8)):
@@ -195,7 +195,7 @@ def discharge(ded, eng, qualname, clause_of=None, tier='quick', variant=None, la
     t0 = time.time()
     pr = prepare(eng, qualname, variant, label, only)
     timeout = timeout or (20 if tier == 'quick' else 120)
-    answers = solve([pr], timeout, budget_s or (300 if tier == 'quick' else 3000))
+    answers = solve([pr], timeout, budget_s or (300 if tier == 'quick' else 3000), getattr(eng, 'cvc5_mode', True))
     refuted = finish(ded, pr, 0, answers, clause_of)
     pr['info']['wall_s'] = round(time.time() - t0, 2)
     return dict(status=pr['status'], refuted=refuted)
@@ -242,6 +242,6 @@ def run_parallel(ded, specs, jobs=None, budget_s=None):
             good.append((s, pr))
     timeout = max([s.get('timeout') or (20 if tier == 'quick' else 120) for s in specs])
     budget = budget_s or (240 if tier == 'quick' else 2400)
-    answers = solve([pr for _, pr in good], timeout, budget)
+    answers = solve([pr for _, pr in good], timeout, budget, 'first' if any(s.get('cvc5_first') for s in specs) else True)
     for pi, (s, pr) in enumerate(good):
         finish(ded, pr, pi, answers, s.get('clause_of'))
